@@ -202,6 +202,7 @@ func init() {
 		"default":           func(parent chainnodeAlias) Node { return parent.Default() },
 		"combine":           func(parent chainnodeAlias) Node { return parent.Combine(nil) },
 		"alert":             func(parent chainnodeAlias) Node { return parent.Alert() },
+		"barrier":           func(parent chainnodeAlias) Node { return parent.Barrier() },
 	}
 
 	multiParents = map[string]func(chainnodeAlias, []Node) Node{
@@ -527,6 +528,7 @@ func isChainNode(node Node) (chainnodeAlias, bool) {
 // chainnodeAlias is used to check for the presence of a chain node
 type chainnodeAlias interface {
 	Alert() *AlertNode
+	Barrier() *BarrierNode
 	Bottom(int64, string, ...string) *InfluxQLNode
 	Children() []Node
 	Combine(...*ast.LambdaNode) *CombineNode
